@@ -166,7 +166,10 @@ def check_state(run, A):
     scope = public_callables(prog, SCOPE_MODULES_C20, include_private=True)
     n_setattr = 0
     lazily_set = {}
+    from ..terms import known_funcs
     for fn in scope:
+        if fn.qual not in known_funcs():
+            continue          # a helper introduced later: inlined at its call sites, its attribute stores are judged there
         g = A.graphs.get(fn)
         # (a) global / class attribute writes
         for e in g.events:
@@ -201,6 +204,16 @@ def check_state(run, A):
                 continue
             # (b) lazily initialised trainer attribute
             ok_guard = guard_tests_attr_is_none(e.guards, selfp, attr)
+            if not ok_guard:
+                # `try: check() except LookupError: self.attr = v` where the only way to get that exception is `if self.attr is None: raise LookupError`
+                for c_, p_ in e.guards:
+                    if c_.op == 'caught' and p_:
+                        exc = strip_views(c_.args[0])
+                        raised = [e2 for e2 in g.events if e2.kind == 'raise' and e2.term is not None and strip_views(e2.term).op == 'call'
+                                  and (strip_views(strip_views(e2.term).args[0]) is exc or (exc.op == 'ref' and strip_views(strip_views(e2.term).args[0]).op == 'ref'
+                                                                                            and strip_views(strip_views(e2.term).args[0]).args[0] == exc.args[0]))]
+                        if raised and all(guard_tests_attr_is_none(e2.guards, selfp, attr) for e2 in raised):
+                            ok_guard = True
             has_assert = False
             for e2 in g.events:
                 if e2.kind == 'assert' and e2.term is not None:
